@@ -850,6 +850,7 @@ func checkC17(c *Ctx) {
 	parallelFor(nBez, func(i int) {
 		c17CheckBezier(c, &specs[i], outs[i], map[string]any{"stream": "bezier", "index": i})
 	})
+	c17Loops(c)
 	c.Floor(c.Pick(250, 400))
 }
 
